@@ -44,6 +44,12 @@ type Node struct {
 	Dig    *DigProfile // non-nil: root map with the adversarial digester
 	nid    int
 
+	// detached containers kept with their old handle: the former parent and the parent handle OBJECT the old handle's
+	// update callback is bound to (see World.handle)
+	fp    *Node
+	fpArr *atree.Array
+	fpMap *atree.OrderedMap
+
 	sorted    []*Entry // cache of sortedEntries (valid while len(sorted) == len(M) and sortedGen == gen)
 	gen       uint64   // bumped by every key insertion / removal
 	sortedGen uint64
